@@ -540,6 +540,23 @@ fn fixed_encodings() -> Vec<Enc> {
 
 /// decode as every target type; returns the names of the targets that panicked
 fn decode_all_targets(b: &[u8], with_reader: bool) -> Vec<&'static str> {
+    // a decoder that does not return (a loop that consumes nothing) is reported like a panic, not waited for
+    let owned = b.to_vec();
+    match crate::out::guarded(20, move || decode_all_targets_inner(&owned, with_reader)) {
+        Some(v) => v,
+        None => {
+            if crate::out::SPUN.swap(true, std::sync::atomic::Ordering::SeqCst) && SPIN_REPORTED.swap(true, std::sync::atomic::Ordering::SeqCst) {
+                Vec::new()
+            } else {
+                vec!["one of the decoders (from_slice / from_reader over Value, Performative, sasl::Frame, Message, Described, LazyValue, DeliveryState) does not return within 20 s: it"]
+            }
+        }
+    }
+}
+
+static SPIN_REPORTED: std::sync::atomic::AtomicBool = std::sync::atomic::AtomicBool::new(false);
+
+fn decode_all_targets_inner(b: &[u8], with_reader: bool) -> Vec<&'static str> {
     let mut panicked = Vec::new();
     macro_rules! target {
         ($name:expr, $t:ty) => {
